@@ -5,7 +5,14 @@ extracted walker model (Walk/WalkModel.v with Walk/WalkOpts.v): exact emitted se
 for walk/files/dirs/info in both search orders; and with the recursive listing reference
 on unfiltered / depth-limited walks from every start directory (every resource exactly once, depth counted
 from the start directory).  The objects walked include the fs.wrap wrappers (cache_directory, read_only), WrapFS
-and SubFS compositions, fresh and after a preceding partially (or fully) consumed scandir/walk on the same object."""
+and SubFS compositions, fresh and after a preceding partially (or fully) consumed scandir/walk on the same object.
+(6) every start directory is also reached through every class of redundant spelling of its path ('a//b', 'a/./b', './a/b',
+'a/b/.', 'a/x/../b', 'a/b/c/..', the root as '', '.', '/.', 'a/..', ...) x max_depth x both orders x 4 methods.
+(7) SESSIONS - several walks that share state are judged walk by walk against the model of each walk run alone:
+ONE Walker object (every option set) shared by walks that are in progress at the same time (nested, round-robin interleaved
+generators, lock-step threads; start paths of different depth, different filesystems, different methods), and cache histories
+(the same pattern strings walked on a filesystem that declares case_insensitive and then on a case-sensitive one, and the
+reverse, over a tree whose names differ only by case)."""
 from __future__ import print_function
 
 import itertools
@@ -88,9 +95,9 @@ def pats_tokens(p):
     return [str(len(p))] + [tok(x) for x in p]
 
 
-def opts_tokens(start, df, opts):
+def opts_tokens(start, df, opts, cs=True):
     md = opts.get("max_depth")
-    t = [tok(start), "1" if df else "0", "-" if md is None else str(md), "1"]
+    t = [tok(start), "1" if df else "0", "-" if md is None else str(md), "1" if cs else "0"]
     for k in ("filter", "exclude", "filter_dirs", "exclude_dirs", "filter_glob", "exclude_glob"):
         t += pats_tokens(opts.get(k))
     return t
@@ -273,6 +280,27 @@ def explore(tier, seed):
                                 continue
                             start = "/" if (pi + oi) % 3 else "/" + ents[0][0]
                             cases.append((kind, ents, what, start, df, opts, peek))
+    # (6) every class of redundant spelling x every start directory x max_depth x both orders x 4 methods: the walk is
+    #     that of the directory, however its path is written (expected result: the model, and the listing of the
+    #     tree snapshot below the CANONICAL path the spelling was derived from)
+    rnd6 = random.Random(seed * 977 + 613)
+    sp_trees = [deep, tree3] + ([tree2] + [random_tree(rnd6, [rnd6.randint(8, 30)]) for _ in range(6)] if thorough else [])
+    sp_kinds = ("mem", "sub", "ro", "cached", "os", "mount", "wrap", "subcached")
+    n6 = 0
+    for ents in sp_trees:
+        for si, canon in enumerate(["/"] + dir_paths(ents)):
+            for ci, (cls, text) in enumerate(spellings(canon, ents)):
+                for md in (None, 0, 1, 2, 3):
+                    for df in (False, True):
+                        for wi, what in enumerate(("info", "files", "dirs", "walk")):
+                            n6 += 1
+                            # quick: the method rotates with (start, spelling, depth, order) - every (spelling class,
+                            # method, order, max_depth) combination still occurs for some start directory
+                            if not thorough and (si + ci + (md or 0) + df) % 4 != wi:
+                                continue
+                            kind = sp_kinds[(si + ci + wi) % len(sp_kinds)] if (n6 % 3 == 0) else "mem"
+                            cases.append((kind, ents, what, text, df, {} if md is None else {"max_depth": md}, None,
+                                          dict(canonical_start=canon, spelling_class=cls)))
     n_rand = 2500 if thorough else 350
     for i in range(n_rand):
         ents = random_tree(rnd, [rnd.randint(1, 60 if thorough else 25)])
@@ -301,6 +329,43 @@ def explore(tier, seed):
 
 def peek_of(case):
     return case[6] if len(case) > 6 else None
+
+
+def meta_of(case):
+    """{canonical_start, spelling_class} of a case of block (6), else {}"""
+    return case[7] if len(case) > 7 and case[7] else {}
+
+
+SPELLING_CLASSES = ("relative", "trailing-slash", "double-slash", "leading-double-slash", "leading-dot", "abs-leading-dot",
+                    "inner-dot", "trailing-dot", "dotdot-sibling", "dotdot-child", "dotdot-prefix", "mixed",
+                    "root-empty", "root-dot", "root-dot-slash", "root-slash-dot", "root-double-slash", "root-dir-dotdot",
+                    "root-mixed")
+
+
+def spellings(canon, ents):
+    """Redundant spellings of the directory whose absolute normalised path is `canon`: [(class, text)].  Every text
+    denotes the same directory under the documented path rules ('' and '.' components are dropped, 'x/..' cancels
+    lexically, relative paths are relative to the root)."""
+    comps = [c for c in canon.split("/") if c]
+    if not comps:
+        first = ([n for n, s in ents if s is not None] + ["zz"])[0]
+        return [("root-empty", ""), ("root-dot", "."), ("root-dot-slash", "./"), ("root-slash-dot", "/."),
+                ("root-double-slash", "//"), ("root-dir-dotdot", first + "/.."), ("root-dir-dotdot", "/zz/../"),
+                ("root-mixed", ".//" + first + "/./../.")]
+    rel = "/".join(comps)
+    sub = ents
+    for c in comps:
+        sub = dict(sub)[c]
+    child = ([n for n, s2 in sub if s2 is not None] + [n for n, s2 in sub if s2 is None] + ["zz"])[0]
+    out = [("relative", rel), ("trailing-slash", canon + "/"),
+           ("double-slash", "/".join(comps[:-1] + ["", comps[-1]]) if len(comps) > 1 else rel + "//"),
+           ("leading-double-slash", "/" + canon), ("leading-dot", "./" + rel), ("abs-leading-dot", "/./" + rel),
+           ("trailing-dot", rel + "/."), ("dotdot-sibling", "/".join(comps[:-1] + ["zz", "..", comps[-1]])),
+           ("dotdot-child", canon + "/" + child + "/.."), ("dotdot-prefix", "zz/../" + rel),
+           ("mixed", "./" + "//".join(comps[:-1] + [".", comps[-1]]) + "/" + child + "/../")]
+    if len(comps) > 1:
+        out.append(("inner-dot", "/".join(comps[:-1] + [".", comps[-1]])))
+    return out
 
 
 def dir_paths(ents, base=""):
@@ -356,6 +421,407 @@ def known_class(case):
     return None
 
 
+# ================================================================================================
+# (7) SESSIONS: several walks that share state.  A walk "reports every resource under the start path exactly once ...
+# the options select exactly the subset their documentation defines" whatever else the process is doing with the same
+# Walker object or has done with the same pattern strings: every walk of a session is compared with the model of that
+# walk alone (its own tree, start path, options, order and the case flag its filesystem declares).
+#
+# session = dict(mode, shared, clear, walks=[walk, ...])      walk = dict(kind, tree, what, start, df, opts)
+#   mode "sequential": the walks run one after the other (cache histories)
+#        "nested":     walks[0] is consumed item by item; after its i-th item the inner walk walks[1 + i % (n-1)] runs to
+#                      its end (the idiom `for d in walker.dirs(fs, '/'): walker.files(fs, d)`, over every start directory)
+#        "roundrobin": all generators are open at once and advanced in turn, `stride[i]` items at a time
+#        "threads":    as roundrobin, each generator advanced by its own thread (lock-step baton: deterministic)
+#   shared: ONE Walker(**walks[0].opts, search=walks[0].df) makes every walk of the session; else one Walker per walk
+#   clear:  fs.glob / fs.wildcard pattern caches are emptied first (when they exist)
+# ================================================================================================
+CS_KINDS = ("mem", "sub", "os", "ro", "mount", "cached")
+CI_KINDS = ("tar", "cimem", "cisub", "ciro")
+# names differing only by case, files and directories
+CASE_TREE = [("BUILD", [("out.txt", None)]), ("Docs", [("GUIDE.TXT", None), ("guide.txt", None), ("Sub", [("d.TXT", None)])]),
+             ("README.TXT", None), ("build", [("OUT.TXT", None), ("sub", [("D.txt", None)])]),
+             ("docs", [("INDEX.TXT", None), ("index.txt", None)]), ("notes.txt", None), ("readme.txt", None)]
+CASE_NAME_PATS = ["*.TXT", "*.txt", "readme.*", "docs", "BUILD", "[Dd]ocs", "OUT.*", "N*", "sub", "d.???"]
+CASE_GLOB_PATS = ["Docs/*.TXT", "*/*.txt", "BUILD/*", "build/out.txt", "*.TXT", "docs/INDEX.*", "*/SUB/*", "BUILD"]
+SHARED_OPTS = [{"max_depth": 0}, {"max_depth": 1}, {"max_depth": 2}, {"max_depth": 3}, {},
+               {"max_depth": 1, "filter": ["*.py", "*.txt"]}, {"max_depth": 2, "exclude": ["*.py", "f1*"]},
+               {"max_depth": 2, "exclude_dirs": ["pkg", "a"]}, {"max_depth": 2, "filter_dirs": ["[!e]*"]},
+               {"max_depth": 3, "filter_glob": ["p/src/*.py", "top/a/*", "p/src/pkg/*.py"]},
+               {"max_depth": 2, "exclude_glob": ["p/docs/*", "top/a/b/*"]},
+               {"filter": ["*.txt", "*.py"]}, {"exclude_dirs": ["a", "pkg"]},
+               {"max_depth": 2, "filter": ["*.py", "*.txt", "*.rst"], "exclude": ["d*"], "filter_dirs": ["*"],
+                "exclude_dirs": ["empty"], "exclude_glob": ["p/s.py"]}]
+
+_CI_CLASS = []
+
+
+def ci_memory_class():
+    """A MemoryFS whose getmeta() declares case_insensitive (what FS.match / FS.match_glob consult)."""
+    if not _CI_CLASS:
+        from fs.memoryfs import MemoryFS
+
+        class CaseInsensitiveMemoryFS(MemoryFS):
+            def getmeta(self, namespace="standard"):
+                meta = dict(super(CaseInsensitiveMemoryFS, self).getmeta(namespace))
+                if namespace == "standard":
+                    meta["case_insensitive"] = True
+                return meta
+        _CI_CLASS.append(CaseInsensitiveMemoryFS)
+    return _CI_CLASS[0]
+
+
+class SessionEnv(object):
+    """The filesystems of the sessions: built once per (kind, tree) - no walk modifies anything."""
+
+    def __init__(self):
+        self._fs = {}
+        self._cleanup = []
+        self._keep = []
+
+    def get(self, kind, ents, slot=None):
+        """-> (filesystem, tree in the listing order of that filesystem, case_sensitive flag it declares); walks with
+        different `slot` get different filesystem objects"""
+        key = (kind, id(ents), slot)
+        if key in self._fs:
+            return self._fs[key]
+        import shutil
+        import tempfile
+        from fs.wrap import read_only
+        self._keep.append(ents)
+        if kind in ("cimem", "cisub", "ciro"):
+            base = ci_memory_class()()
+            self._cleanup.append(base.close)
+            if kind == "cisub":
+                base.makedirs("x/y")
+                build(base, ents, "/x/y")
+                f = base.opendir("x/y")
+            else:
+                build(base, ents)
+                f = read_only(base) if kind == "ciro" else base
+        elif kind == "tar":
+            from fs.tarfs import TarFS
+            d = tempfile.mkdtemp(prefix="pyfs2verif_c13_")
+            with TarFS(d + "/t.tar", write=True) as t:
+                build(t, ents)
+            f = TarFS(d + "/t.tar")
+            self._cleanup.append(lambda: (f.close(), shutil.rmtree(d, ignore_errors=True)))
+        else:
+            f, cleanup = make_fs(kind, ents)
+            self._cleanup.append(cleanup)
+        declared = bool(f.getmeta().get("case_insensitive", False))
+        if declared != (kind in CI_KINDS):
+            # a host whose OS filesystem folds case, or an archive class that stops declaring it: use the plain one
+            res = self.get("cimem" if kind in CI_KINDS else "mem", ents, slot)
+        else:
+            order = ents
+            if kind in ("os", "tar"):
+                def reorder(e, p):
+                    d = dict(e)
+                    return [(n, None if d[n] is None else reorder(d[n], p.rstrip("/") + "/" + n)) for n in f.listdir(p)]
+                order = reorder(ents, "/")
+            res = (f, order, not declared)
+        self._fs[key] = res
+        return res
+
+    def close(self):
+        for c in self._cleanup:
+            try:
+                c()
+            except Exception:  # noqa
+                pass
+        for m, _e in _BASES.values():
+            m.close()
+        _BASES.clear()
+        self._fs, self._cleanup = {}, []
+
+
+def clear_pattern_caches():
+    import fs.glob
+    import fs.wildcard
+    for mod in (fs.glob, fs.wildcard):
+        c = getattr(mod, "_PATTERN_CACHE", None)
+        if c is not None and hasattr(c, "clear"):
+            c.clear()
+
+
+def open_walk(walker, fs, what, start):
+    if what == "files":
+        return iter(walker.files(fs, start))
+    if what == "dirs":
+        return iter(walker.dirs(fs, start))
+    if what == "info":
+        return iter(walker.info(fs, start))
+    if what == "walk":
+        return iter(walker.walk(fs, start))
+    raise ValueError(what)
+
+
+def render_items(what, items):
+    if what in ("files", "dirs"):
+        return r_list(r_str, items)
+    if what == "info":
+        return r_list(lambda pi: r_pair(r_str, r_bool, (pi[0], pi[1].is_dir)), items)
+    return r_list(lambda s: r_pair(r_str, lambda dd: r_pair(lambda l: r_list(r_str, l), lambda l: r_list(r_str, l), dd),
+                                   (s.path, ([i.name for i in s.dirs], [i.name for i in s.files]))), items)
+
+
+class _Run(object):
+    """One walk in progress: collects what its generator yields; an exception ends it and becomes the result."""
+
+    def __init__(self, walker, fs, w):
+        self.what = w["what"]
+        self.items = []
+        self.error = None
+        self.done = False
+        try:
+            self.it = open_walk(walker, fs, w["what"], w["start"])
+        except Exception as e:  # noqa
+            self.error, self.done = common.exc_name(e), True
+
+    def step(self, n=1):
+        """advance by n items; -> number of items obtained"""
+        got = 0
+        while got < n and not self.done:
+            try:
+                self.items.append(next(self.it))
+                got += 1
+            except StopIteration:
+                self.done = True
+            except Exception as e:  # noqa
+                self.error, self.done = common.exc_name(e), True
+        return got
+
+    def result(self):
+        return self.error if self.error is not None else render_items(self.what, self.items)
+
+
+def run_session(env, sess):
+    """-> (per walk: list of rendered results (one per time the walk ran), per walk: model line)"""
+    from fs.walk import Walker
+    walks = sess["walks"]
+    if sess.get("clear"):
+        clear_pattern_caches()
+    fss, lines = [], []
+    for k, w in enumerate(walks):
+        # threads: MemoryFS.scandir (a generator) keeps the filesystem lock while suspended, so two lock-step threads
+        # on ONE filesystem object would block each other for ever; the object shared by the threads is the Walker
+        f, order, cs = env.get(w["kind"], w["tree"], k if sess["mode"] == "threads" else None)
+        fss.append(f)
+        lines.append("walk %s %s" % (w["what"], " ".join(tree_tokens(render_tree(order)) +
+                                                           opts_tokens(w["start"], w["df"], w["opts"], cs))))
+
+    def mk(w):
+        return Walker(search="depth" if w["df"] else "breadth", **w["opts"])
+    shared = mk(walks[0]) if sess.get("shared") else None
+
+    def walker(w):
+        return shared if shared is not None else mk(w)
+    results = [[] for _ in walks]
+    mode = sess["mode"]
+    if mode == "sequential":
+        for i, w in enumerate(walks):
+            r = _Run(walker(w), fss[i], w)
+            r.step(1 << 30)
+            results[i].append(r.result())
+    elif mode == "nested":
+        outer = _Run(walker(walks[0]), fss[0], walks[0])
+        i = 0
+        while outer.step(1):
+            for _k in range(min(2, len(walks) - 1)):
+                j = 1 + i % (len(walks) - 1)
+                inner = _Run(walker(walks[j]), fss[j], walks[j])
+                inner.step(1 << 30)
+                results[j].append(inner.result())
+                i += 1
+        results[0].append(outer.result())
+    elif mode == "roundrobin":
+        runs = [_Run(walker(w), fss[i], w) for i, w in enumerate(walks)]
+        stride = sess.get("stride") or [1]
+        while not all(r.done for r in runs):
+            for i, r in enumerate(runs):
+                r.step(stride[i % len(stride)])
+        for i, r in enumerate(runs):
+            results[i].append(r.result())
+    elif mode == "threads":
+        import threading
+        runs = [_Run(walker(w), fss[i], w) for i, w in enumerate(walks)]
+        stride = sess.get("stride") or [1]
+        first = [k for k, r in enumerate(runs) if not r.done]
+        turn = [first[0] if first else -1]
+        cv = threading.Condition()
+
+        def work(i):
+            while True:
+                with cv:
+                    while turn[0] != i and turn[0] != -1:
+                        cv.wait(5)
+                    if turn[0] == -1 or runs[i].done:
+                        return
+                    runs[i].step(stride[i % len(stride)])      # the baton is held: exactly one generator moves
+                    nxt = [k for k in list(range(i + 1, len(runs))) + list(range(0, i + 1)) if not runs[k].done]
+                    turn[0] = nxt[0] if nxt else -1
+                    cv.notify_all()
+                    if runs[i].done:
+                        return
+        ths = [threading.Thread(target=work, args=(i,)) for i in range(len(runs))]
+        for t in ths:
+            t.daemon = True
+            t.start()
+        for t in ths:
+            t.join(20)
+        for i, r in enumerate(runs):
+            results[i].append(r.result() if r.done else "harness:thread-did-not-finish")
+    else:
+        raise ValueError(mode)
+    return results, lines
+
+
+def safe_pats(opts):
+    """option sets of the sessions stay inside the region where no recorded finding decides (known_class)"""
+    pats = (opts.get("filter_glob") or []) + (opts.get("exclude_glob") or [])
+    return not any("**" in p or p.endswith("/") for p in pats)
+
+
+def explore_sessions(tier, seed):
+    rnd = random.Random(seed * 7907 + 131)
+    thorough = tier == "thorough"
+    deep = [("top", [("f0.txt", None), ("a", [("f1.txt", None), ("b", [("f2.txt", None), ("c", [("f3.txt", None)])])]),
+                     ("empty", [])]), ("g", None)]
+    tree2 = [("a", [("b", [("x.py", None)]), ("c", [("y.py", None)]), ("z.py", None)]), ("c", [("w.py", None)]),
+             ("top.py", None)]
+    tree3 = [("p", [("src", [("main.py", None), ("pkg", [("mod.py", None), ("inner", [("deep.py", None), ("core", [
+        ("deeper.py", None)])])]), ("empty", [])]), ("docs", [("i.rst", None)]), ("s.py", None)]), ("r.txt", None)]
+    trees = [deep, tree3, tree2]
+    methods = ("info", "files", "dirs", "walk")
+    kinds = ("mem", "sub", "cached", "mount", "ro", "os", "wrap", "subcached")
+    sessions = []
+
+    def W(kind, tree, what, start, df, opts):
+        return dict(kind=kind, tree=tree, what=what, start=start, df=df, opts=opts)
+    # (7a) ONE Walker shared by walks in progress at the same time
+    for oi, opts in enumerate(SHARED_OPTS):
+        assert safe_pats(opts)
+        for df in (False, True):
+            # nested: outer walk from the root, inner walks from every directory of the tree (and of another tree)
+            for ti, tree in enumerate(trees if thorough else trees[:2]):
+                for wi, outer_what in enumerate(methods):
+                    if not thorough and (oi + ti + df) % 2 != wi % 2:
+                        continue
+                    kind = kinds[(oi + ti + wi) % len(kinds)]
+                    other = trees[(ti + 1) % len(trees)]
+                    inner = [W(kind, tree, methods[(k + wi + 1) % 4], d, df, opts) for k, d in enumerate(dir_paths(tree))]
+                    inner += [W("mem", other, methods[(k + wi) % 4], d, df, opts) for k, d in enumerate(dir_paths(other)[:3])]
+                    rnd.shuffle(inner)
+                    sessions.append(dict(mode="nested", shared=True, clear=False,
+                                         walks=[W(kind, tree, outer_what, "/", df, opts)] + inner))
+                    # the outer walk below the root, the inner ones above and below it
+                    sub = dir_paths(tree)[1 % len(dir_paths(tree))]
+                    sessions.append(dict(mode="nested", shared=True, clear=False,
+                                         walks=[W(kind, tree, outer_what, sub, df, opts), W(kind, tree, methods[wi - 1], "/", df, opts),
+                                                W(kind, tree, methods[wi - 2], dir_paths(tree)[-1], df, opts)]))
+            # interleaved generators / threads: start paths of different depth, different filesystems, different methods
+            for mode in ("roundrobin", "threads"):
+                for variant in range(3 if thorough else 2):
+                    ws = []
+                    for k in range(rnd.randint(2, 6)):
+                        tree = trees[(k + variant) % len(trees)]
+                        ws.append(W(kinds[(k + oi + variant) % len(kinds)], tree, methods[(k + variant + oi) % 4],
+                                    rnd.choice(["/"] + dir_paths(tree)), df, opts))
+                    # always: two walks on one filesystem whose start depths differ by two levels
+                    d2 = [d for d in dir_paths(trees[variant % 2]) if d.count("/") >= 3]
+                    ws.insert(rnd.randint(0, len(ws)), W("mem", trees[variant % 2], methods[(oi + variant) % 3], "/", df, opts))
+                    ws.insert(rnd.randint(0, len(ws)), W("mem", trees[variant % 2], methods[(oi + variant + 1) % 3], d2[0], df, opts))
+                    sessions.append(dict(mode=mode, shared=True, clear=False, walks=ws,
+                                         stride=[rnd.choice([1, 1, 2, 3]) for _ in ws]))
+    # (7b) cache histories: the same pattern strings on a filesystem that declares case_insensitive and on a case-
+    #      sensitive one, both orders and alternations, from empty caches and inside long never-cleared histories
+    hist_walks = []
+    n = 0
+    for key, pats in (("filter", CASE_NAME_PATS), ("exclude", CASE_NAME_PATS), ("filter_dirs", CASE_NAME_PATS),
+                      ("exclude_dirs", CASE_NAME_PATS), ("filter_glob", CASE_GLOB_PATS), ("exclude_glob", CASE_GLOB_PATS)):
+        plists = [[p] for p in pats] + [[pats[i], pats[(i + 3) % len(pats)]] for i in range(len(pats) if thorough else 3)]
+        for pl in plists:
+            for df in (False, True):
+                n += 1
+                opts = {key: pl}
+                if n % 5 == 0:
+                    opts["max_depth"] = 1 + n % 3
+                what = methods[n % 4] if key not in ("filter", "exclude") else ("files", "info", "walk")[n % 3]
+                ci = W(CI_KINDS[n % len(CI_KINDS)], CASE_TREE, what, "/", df, opts)
+                cs = W(CS_KINDS[n % len(CS_KINDS)], CASE_TREE, what, "/", df, opts)
+                cs2 = W(CS_KINDS[(n + 1) % len(CS_KINDS)], CASE_TREE, methods[(n + 1) % 4], "/", not df, opts)
+                ci2 = W(CI_KINDS[(n + 1) % len(CI_KINDS)], CASE_TREE, methods[(n + 1) % 4], "/Docs" if n % 2 else "/", not df, opts)
+                orders = [[ci, cs], [cs, ci], [ci, cs, ci2, cs2], [cs, ci, cs2, ci2]]
+                for o in (orders if thorough else [orders[n % 2], orders[2 + (n // 2) % 2]]):
+                    sessions.append(dict(mode="sequential", shared=False, clear=True, walks=o))
+                hist_walks += [ci, cs, cs2, ci2]
+    for c in range(4 if thorough else 2):
+        ws = list(hist_walks)
+        rnd.shuffle(ws)
+        sessions.append(dict(mode="sequential", shared=False, clear=(c % 2 == 0), walks=ws))
+    return sessions
+
+
+def evaluate_sessions(sessions):
+    """-> [(session index, walk index, [implementation results], model result)] for every walk of every session"""
+    env = SessionEnv()
+    out = []
+    try:
+        runs = [run_session(env, s) for s in sessions]
+    finally:
+        env.close()
+    uniq = sorted(set(l for _r, ls in runs for l in ls))
+    um = dict(zip(uniq, common.run_model_parallel(uniq, chunk=2000)))
+    for si, (results, lines) in enumerate(runs):
+        for wi, (rs, l) in enumerate(zip(results, lines)):
+            out.append((si, wi, rs, um[l]))
+    return out
+
+
+def walk_json(w):
+    return dict(backend=w["kind"], tree=w["tree"], method=w["what"], start=w["start"], depth_first=w["df"], options=w["opts"])
+
+
+def session_json(s):
+    d = dict(mode=s["mode"], one_shared_walker=bool(s.get("shared")), pattern_caches_emptied_first=bool(s.get("clear")),
+             walks=[walk_json(w) for w in s["walks"]])
+    if s.get("stride"):
+        d["stride"] = s["stride"]
+    return d
+
+
+def session_from_json(d):
+    def ents(x):
+        return [(n, None if s is None else ents(s)) for n, s in x]
+    trees = {}
+
+    def tree(x):        # walks of one session that name the same tree share the filesystem, as in the run
+        return trees.setdefault(json.dumps(x), ents(x))
+    return dict(mode=d["mode"], shared=d["one_shared_walker"], clear=d["pattern_caches_emptied_first"], stride=d.get("stride"),
+                walks=[dict(kind=w["backend"], tree=tree(w["tree"]), what=w["method"], start=w["start"], df=w["depth_first"],
+                            opts=w["options"]) for w in d["walks"]])
+
+
+def minimise_session(sess, wi):
+    """smaller session in which walk `wi` still differs from its model: that walk with one other walk, if possible"""
+    def differs(s, k):
+        try:
+            return any(any(r != m for r in rs) for _si, w, rs, m in evaluate_sessions([s]) if w == k)
+        except Exception:  # noqa
+            return False
+    ws = sess["walks"]
+    if sess["mode"] == "nested":
+        cands = [([ws[0], ws[j]], 0 if wi == 0 else 1) for j in range(1, len(ws)) if wi in (0, j)]
+    else:
+        cands = [(([ws[j], ws[wi]], 1) if j < wi else ([ws[wi], ws[j]], 0)) for j in range(len(ws)) if j != wi]
+    for pair, k in cands[:12]:
+        s = dict(sess, walks=pair, stride=[1, 1] if sess.get("stride") else None)
+        if differs(s, k):
+            return s, k
+    return sess, wi
+
+
 def run(report, forced=None):
     proof = common.preflight(report)
     cases = forced if forced is not None else explore(report.tier, report.seed)
@@ -369,7 +835,7 @@ def run(report, forced=None):
         kind, ents, what, start, df, opts = case[:6]
         if set(opts) - {"max_depth"} or what == "walk" or not impl[i].startswith("["):
             continue
-        expect = reference_listing(ents, start, opts.get("max_depth"), what)
+        expect = reference_listing(ents, meta_of(case).get("canonical_start", start), opts.get("max_depth"), what)
         if expect is None:
             continue
         n_ref += 1
@@ -378,14 +844,16 @@ def run(report, forced=None):
     seen = set()
     seen_ref = set()
     for i in ref_bad:
-        sig = (cases[i][0], (peek_of(cases[i]) or [None])[0], cases[i][4], cases[i][3] == "/", tuple(cases[i][5]))
+        sig = (cases[i][0], (peek_of(cases[i]) or [None])[0], cases[i][4], cases[i][3] == "/", tuple(cases[i][5]),
+               bool(meta_of(cases[i])))
         if sig in seen_ref or len(seen_ref) >= 6:
             continue
         seen_ref.add(sig)
         c = cases[i]
         report.violation(dict(kind="walk-does-not-list-every-resource-once", case=case_json(cases[i]),
                               implementation=impl[i],
-                              expected_from_tree=reference_listing(c[1], c[3], c[5].get("max_depth"), c[2]),
+                              expected_from_tree=reference_listing(c[1], meta_of(c).get("canonical_start", c[3]),
+                                                                   c[5].get("max_depth"), c[2]),
                               theorem="Props/C13.v C13_bfs_reports_listing"))
     for i in bad:
         if i in ref_bad:
@@ -396,7 +864,7 @@ def run(report, forced=None):
             report.known_finding(known)
             continue
         sig = (cases[i][2], cases[i][4], tuple(sorted(cases[i][5])), cases[i][0] in WRAP_KINDS,
-               (peek_of(cases[i]) or [None])[0])
+               (peek_of(cases[i]) or [None])[0], bool(meta_of(cases[i])))
         if sig in seen or len(seen) >= 8:
             continue
         seen.add(sig)
@@ -406,10 +874,56 @@ def run(report, forced=None):
                               implementation=impl[i], model=model[i], theorem="Props/C13.v"))
     if vm_mism and not bad:
         report.violation(dict(kind="correspondence-broken", vm=vm_mism, theorem="Props/C13.v"), no_input=True)
+    # (7) sessions: walks sharing a Walker object / the process-wide pattern caches, each judged against its own model
+    import time as _time
+    t_s = _time.time()
+    sessions = explore_sessions(report.tier, report.seed) if forced is None else []
+    sres = evaluate_sessions(sessions) if sessions else []
+    s_bad = [(si, wi, rs, m) for si, wi, rs, m in sres if any(r != m for r in rs)]
+    s_seen = set()
+    for si, wi, rs, m in s_bad:
+        sess = sessions[si]
+        w = sess["walks"][wi]
+        sig = (sess["mode"], bool(sess.get("shared")), w["what"], w["df"], tuple(sorted(w["opts"])))
+        if sig in s_seen or len(s_seen) >= 8:
+            continue
+        s_seen.add(sig)
+        small, k = minimise_session(sess, wi)
+        got = dict((x[1], x[2]) for x in evaluate_sessions([small])).get(k, []) if small is not sess else rs
+        report.violation(dict(kind="walk-sharing-state-differs-from-its-own-model", session=session_json(small), walk_index=k,
+                              implementation=[r for r in got if r != m][:2] or got[:2], model=m,
+                              what="every walk of a session (one Walker object shared by walks in progress at the same "
+                                   "time / the same pattern strings walked before on a filesystem of the other case mode) "
+                                   "must report what the model reports for that walk alone",
+                              theorem="Props/C13.v (the walk is a function of tree, start path, options and order only)"))
+    s_cov = dict(sessions=len(sessions), session_walks=len(sres), session_walks_run=sum(len(rs) for _a, _b, rs, _m in sres),
+                 session_disagreements=len(s_bad), sessions_by_mode={}, session_shared_walker_option_sets=len(SHARED_OPTS),
+                 session_case_history_patterns=len(CASE_NAME_PATS) * 4 + len(CASE_GLOB_PATS) * 2,
+                 session_filesystems=sorted(set(w["kind"] for s_ in sessions for w in s_["walks"])),
+                 session_wall_s=round(_time.time() - t_s, 2),
+                 session_rule="(7a) ONE Walker per option set (max_depth 0..3, none, name filters, glob filters, all options "
+                              "together) x both orders shared by walks in progress at the same time: nested (outer walk of any "
+                              "method from the root or a subdirectory; inner walks from every directory of the same and of "
+                              "another tree), round-robin interleaved generators and lock-step threads over start paths of "
+                              "different depth x filesystems x methods x strides; (7b) cache histories: each of filter / "
+                              "exclude / filter_dirs / exclude_dirs / filter_glob / exclude_glob with pattern lists whose "
+                              "letters differ in case from the names of a mixed-case tree, walked on a filesystem declaring "
+                              "case_insensitive (read TarFS, MemoryFS subclass, SubFS / read_only over it) then on a case-"
+                              "sensitive one (MemoryFS, SubFS, OSFS, read_only, MountFS, cache_directory), the reverse, and "
+                              "alternations, from empty pattern caches and inside long never-cleared shuffled histories; "
+                              "every walk compared (exact sequence) with the model of that walk alone, case flag = what "
+                              "its filesystem declares")
+    for s_ in sessions:
+        k = s_["mode"] + ("/shared-walker" if s_.get("shared") else "/cache-history")
+        s_cov["sessions_by_mode"][k] = s_cov["sessions_by_mode"].get(k, 0) + 1
     nontrivial = set((model[i]) for i in range(len(cases)) if len(model[i]) > 4)
     dist = {}
     by_kind, by_peek, sub_md = {}, {}, 0
+    by_spelling = {}
     for c in cases:
+        if meta_of(c):
+            sc = meta_of(c)["spelling_class"]
+            by_spelling[sc] = by_spelling.get(sc, 0) + 1
         k = "%s/%s/%s/%s" % (c[0], c[2], "dfs" if c[4] else "bfs", ",".join(sorted(c[5])) or "-")
         dist[k] = dist.get(k, 0) + 1
         by_kind[c[0]] = by_kind.get(c[0], 0) + 1
@@ -418,7 +932,7 @@ def run(report, forced=None):
             by_peek[pk[0]] = by_peek.get(pk[0], 0) + 1
         if c[3].strip("/") and "max_depth" in c[5]:
             sub_md += 1
-    cov = dict(evaluations=len(cases), distinct_nontrivial=len(nontrivial),
+    cov = dict(evaluations=len(cases) + s_cov["session_walks_run"], distinct_nontrivial=len(nontrivial),
                rule="all trees with <= 3 (quick) / 4 (thorough) nodes over 3 names x both orders x 4 methods x "
                     "max_depth, plus random trees (<= 25/60 nodes, dot-files, metacharacter names) x random "
                     "filter options x start-path spellings x backends; exact emitted sequence compared; "
@@ -432,7 +946,11 @@ def run(report, forced=None):
                reference_listing_checked=n_ref, evaluations_per_object_kind=by_kind,
                evaluations_after_partially_consumed_iterator=by_peek,
                evaluations_max_depth_from_subdirectory=sub_md,
-               distribution=dict(sorted(dist.items(), key=lambda kv: -kv[1])[:40]), exhaustive=True,
+               evaluations_per_start_spelling_class=by_spelling,
+               start_spelling_rule="every start directory of the spelling trees x every class of redundant spelling of its "
+                                   "path x max_depth (none, 0..3) x both orders x 4 methods (quick: method rotated); expected "
+                                   "= model on the spelled path and the tree listing below the canonical path",
+               distribution=dict(sorted(dist.items(), key=lambda kv: -kv[1])[:40]), exhaustive=True, **s_cov,
                exhaustive_scope="small trees; random trees/options are sampled")
     return report.finish(proof, cov, assumptions=[
         "name filters follow Glob/ShellSpec.v wild_spec, glob filters its component-wise semantics "
@@ -486,19 +1004,33 @@ def normalised_report(rendered, what):
 
 
 def case_json(c):
-    return dict(backend=c[0], tree=c[1], method=c[2], start=c[3], depth_first=c[4], options=c[5],
-                preceding_partial_iteration=peek_of(c))
+    d = dict(backend=c[0], tree=c[1], method=c[2], start=c[3], depth_first=c[4], options=c[5],
+             preceding_partial_iteration=peek_of(c))
+    d.update(meta_of(c))
+    return d
 
 
 def replay(report, path):
     with open(path) as fh:
         d = json.load(fh)
+    if "session" in d:
+        sess = session_from_json(d["session"])
+        rc = 0
+        for _si, wi, rs, m in evaluate_sessions([sess]):
+            ok = all(r == m for r in rs)
+            print("walk %d %s: %s" % (wi, json.dumps(dict(walk_json(sess["walks"][wi]), tree="...")), "agrees" if ok else "DIFFERS"))
+            if not ok:
+                rc = 1
+                print("  implementation:", [r for r in rs if r != m][0])
+                print("  model         :", m)
+        return rc
     c = d["case"]
 
     def ents(x):
         return [(n, None if s is None else ents(s)) for n, s in x]
     case = (c["backend"], ents(c["tree"]), c["method"], c["start"], c["depth_first"], c["options"],
-            c.get("preceding_partial_iteration"))
+            c.get("preceding_partial_iteration"),
+            dict(canonical_start=c["canonical_start"], spelling_class=c.get("spelling_class")) if "canonical_start" in c else None)
     impl, model, _ = evaluate([case])
     print("implementation:", impl[0])
     print("model         :", model[0])
